@@ -44,7 +44,12 @@ def run(ctx):
                     cases.append((rng.randrange(4), d, e, hx(g.gen_key(rng))))
                     ctx.count("directed:leading-zero-" + name)
     dlist = list(dict.fromkeys(d for _, d, _, _ in cases))
-    pubs = dict(zip(dlist, ctx.correspond([f"ecc.pub {d}" for d in dlist], "ecc.pub")))
+    ctx.correspond([f"ecc.pub {d}" for d in dlist], "ecc.pub")
+    # the public keys the later lines are built from come from the independent arithmetic, not from what the code returned
+    pubs = {}
+    for d in dlist:
+        Q = refec.mul(c, d, refec.G(c))
+        pubs[d] = "ok " + hx(Q[0].to_bytes(32, "big") + Q[1].to_bytes(32, "big"))
     lines, dec = [], []
     for (sel, d, eph, k) in cases:
         pub = pubs[d].split()[1]
